@@ -433,10 +433,11 @@ example : opcodeAdc .C = 0x89 ∧ opcodeSbc .A = 0x9f := by decide
 
 
 /-- **simulation_inc_partial**: INC r / DEC r for the seven registers (register write, then Z N H from the host's ZF / AF
-with the guest's C kept) and SCF / CCF — 16 encodings, for all states -/
+with the guest's C kept) and SCF / CCF / CPL — 17 encodings, for all states -/
 theorem simulation_inc_partial :
-    (∀ r b1 b2, Simulates (opcodeInc8 r) b1 b2 ∧ Simulates (opcodeDec8 r) b1 b2) ∧ (∀ b1 b2, Simulates 0x37 b1 b2 ∧ Simulates 0x3f b1 b2) :=
-  ⟨fun r b1 b2 => ⟨sim_inc8 r b1 b2, sim_dec8 r b1 b2⟩, fun b1 b2 => ⟨sim_scf b1 b2, sim_ccf b1 b2⟩⟩
+    (∀ r b1 b2, Simulates (opcodeInc8 r) b1 b2 ∧ Simulates (opcodeDec8 r) b1 b2) ∧
+    (∀ b1 b2, Simulates 0x37 b1 b2 ∧ Simulates 0x3f b1 b2 ∧ Simulates 0x2f b1 b2) :=
+  ⟨fun r b1 b2 => ⟨sim_inc8 r b1 b2, sim_dec8 r b1 b2⟩, fun b1 b2 => ⟨sim_scf b1 b2, sim_ccf b1 b2, sim_cpl b1 b2⟩⟩
 
 example : opcodeInc8 .A = 0x3c ∧ opcodeDec8 .B = 0x05 := by decide
 
